@@ -4,7 +4,9 @@ package main
 import (
 	"fmt"
 	"math/rand"
+	"strings"
 	"sync"
+	"sync/atomic"
 	"time"
 
 	"github.com/pion/interceptor"
@@ -210,7 +212,7 @@ func runQ(c qCase, fails *[]cq.ImplFailure) qCase {
 			send(w)
 		}
 	}
-	col.wait(total, 1500*time.Millisecond, 12*time.Second)
+	col.wait(total, 2500*time.Millisecond, 15*time.Second)
 	done := make(chan struct{})
 	go func() { _ = closer(); close(done) }()
 	select {
@@ -224,6 +226,246 @@ func runQ(c qCase, fails *[]cq.ImplFailure) qCase {
 	c.NDeliv = len(c.Deliv)
 
 	return c
+}
+
+// ---- runs with Close: Close at a random point mid-traffic, writes after Close, second Close ----
+
+type wrObs struct {
+	P     pk
+	Phase int64 // 0 = returned before Close was called, 2 = began after the first Close returned, 1 = otherwise
+	Res   int64 // 0 = accepted, 1 = closed error, 2 = overflow error, 3 = other error
+}
+
+type closeCase struct {
+	Kind         string    `json:"kind"` // pacing | leaky
+	Rate         int       `json:"rate"`
+	Writers      [][]spec  `json:"writers"` // the last Late specs of every writer are written after Close returned
+	Late         int       `json:"late"`
+	Conc         bool      `json:"conc"`
+	GapUS        int       `json:"gap_us"`         // pause of a writer between two writes
+	CloseAfterUS int       `json:"close_after_us"` // the closer calls Close after this long
+	Burst        int64     `json:"burst"`
+	Obs          [][]wrObs `json:"-"`
+	Deliv        []pk      `json:"-"`
+	NAtReturn    int64     `json:"n_at_return"`
+	Second       int64     `json:"second_close_returned"`
+	NDeliv       int       `json:"ndelivered"`
+	NAccepted    int       `json:"naccepted"`
+}
+
+func errCode(err error) int64 {
+	switch {
+	case err == nil:
+		return 0
+	case strings.Contains(err.Error(), "closed"):
+		return 1
+	case strings.Contains(err.Error(), "overflow"):
+		return 2
+	default:
+		return 3
+	}
+}
+
+func runClose(c closeCase, fails *[]cq.ImplFailure) closeCase { //nolint:cyclop
+	col := &collector{}
+	nw := len(c.Writers)
+	ws := make([]interceptor.RTPWriter, nw)
+	var closer func() error
+	switch c.Kind {
+	case "pacing":
+		f := pacing.NewInterceptor(pacing.InitialRate(c.Rate), pacing.Interval(time.Millisecond))
+		ic, err := f.NewInterceptor("x")
+		if err != nil {
+			panic(err)
+		}
+		for w := 0; w < nw; w++ {
+			ws[w] = ic.BindLocalStream(&interceptor.StreamInfo{SSRC: uint32(1000 + w)}, col.writer(int64(w))) //nolint:gosec
+		}
+		closer = ic.Close
+		c.Burst = int64(pacing.VerifBurst(c.Rate, time.Millisecond))
+	default:
+		p := gcc.NewLeakyBucketPacer(c.Rate)
+		for w := 0; w < nw; w++ {
+			p.AddStream(uint32(1000+w), col.writer(int64(w))) //nolint:gosec
+			ws[w] = p
+		}
+		closer = p.Close
+		c.Burst = 0
+	}
+	c.Obs = make([][]wrObs, nw)
+	var closeBegun, closeReturned atomic.Int32
+	write := func(w int, s spec) {
+		h, p := build(w, s)
+		want := toPk(int64(w), h, p)
+		after := closeReturned.Load() == 1
+		_, err := ws[w].Write(h, p, interceptor.Attributes{})
+		before := closeBegun.Load() == 0
+		o := wrObs{P: want, Phase: 1, Res: errCode(err)}
+		if before {
+			o.Phase = 0
+		} else if after {
+			o.Phase = 2
+		}
+		c.Obs[w] = append(c.Obs[w], o) // one goroutine per writer at a time
+		for k := range p {
+			p[k] = 0xEE
+		}
+		h.SequenceNumber, h.Timestamp = 0xDEAD, 0xDEADBEEF
+	}
+	send := func(w int) {
+		main := c.Writers[w][:len(c.Writers[w])-c.Late]
+		for _, s := range main {
+			write(w, s)
+			if c.GapUS > 0 {
+				time.Sleep(time.Duration(c.GapUS) * time.Microsecond)
+			}
+		}
+	}
+	var wg sync.WaitGroup
+	if c.Conc {
+		for w := 0; w < nw; w++ {
+			wg.Add(1)
+			go func(w int) { defer wg.Done(); send(w) }(w)
+		}
+	} else {
+		wg.Add(1)
+		go func() {
+			defer wg.Done()
+			for w := 0; w < nw; w++ {
+				send(w)
+			}
+		}()
+	}
+	time.Sleep(time.Duration(c.CloseAfterUS) * time.Microsecond)
+	closeWithTimeout := func() bool {
+		done := make(chan struct{})
+		go func() { _ = closer(); close(done) }()
+		select {
+		case <-done:
+			return true
+		case <-time.After(3 * time.Second):
+			return false
+		}
+	}
+	closeBegun.Store(1)
+	ok := closeWithTimeout()
+	closeReturned.Store(1)
+	col.mu.Lock()
+	c.NAtReturn = int64(len(col.got))
+	col.mu.Unlock()
+	if !ok {
+		*fails = append(*fails, cq.ImplFailure{Kind: "close-blocks", Detail: "Close did not return", Case: c})
+	}
+	wg.Wait()
+	for w := 0; w < nw; w++ { // writes after Close returned
+		for _, s := range c.Writers[w][len(c.Writers[w])-c.Late:] {
+			write(w, s)
+		}
+	}
+	if closeWithTimeout() {
+		c.Second = 1
+	}
+	time.Sleep(8 * time.Millisecond) // anything still delivered now was delivered after Close returned
+	col.mu.Lock()
+	c.Deliv = append([]pk{}, col.got...)
+	col.mu.Unlock()
+	c.NDeliv = len(c.Deliv)
+	for _, o := range c.Obs {
+		for _, x := range o {
+			if x.Res == 0 {
+				c.NAccepted++
+			}
+		}
+	}
+
+	return c
+}
+
+func (c closeCase) toCase(b ...string) cq.Case {
+	ws := make([]string, len(c.Obs))
+	n := 0
+	ph := map[int64]bool{}
+	raceAcc, raceRej := false, false
+	for i, a := range c.Obs {
+		xs := make([]string, len(a))
+		for j, x := range a {
+			xs[j] = cq.T(coqPk(x.P), cq.Z(x.Phase), cq.Z(x.Res))
+			ph[x.Phase] = true
+			if x.Phase == 1 && x.Res == 0 {
+				raceAcc = true
+			}
+			if x.Phase == 1 && x.Res == 1 {
+				raceRej = true
+			}
+		}
+		n += len(a)
+		ws[i] = cq.L(xs)
+	}
+	ds := make([]string, len(c.Deliv))
+	for j, p := range c.Deliv {
+		ds[j] = coqPk(p)
+	}
+	if c.NDeliv < c.NAccepted {
+		b = append(b, "undelivered-at-close")
+	} else {
+		b = append(b, "all-delivered-before-close")
+	}
+	if c.NDeliv > 0 && c.NDeliv < c.NAccepted {
+		b = append(b, "close-mid-delivery")
+	}
+	if raceAcc {
+		b = append(b, "write-racing-close-accepted")
+	}
+	if raceRej {
+		b = append(b, "write-racing-close-rejected")
+	}
+	if ph[2] {
+		b = append(b, "write-after-close")
+	}
+
+	return cq.Case{Coq: cq.T(cq.Z(c.Burst), cq.L(ws), cq.L(ds), cq.Z(c.NAtReturn), cq.Z(c.Second)), JSON: c, Buckets: b, Trivial: n < 2}
+}
+
+func genClose(r *rand.Rand, kind string, i int) (closeCase, []string) {
+	c := closeCase{Kind: kind, Late: 1 + r.Intn(3)}
+	b := []string{}
+	switch r.Intn(3) {
+	case 0:
+		c.Rate = 1_000_000
+	case 1:
+		c.Rate = 20_000_000 + r.Intn(80_000_000)
+	default:
+		c.Rate = 3_000_000 + r.Intn(10_000_000)
+	}
+	nw := 1
+	if i%3 == 1 {
+		nw = 2 + r.Intn(3)
+		c.Conc = r.Intn(2) == 0
+		if c.Conc {
+			b = append(b, "concurrent-writers")
+		} else {
+			b = append(b, "multi-stream")
+		}
+	} else {
+		b = append(b, "single-writer")
+	}
+	c.GapUS = []int{0, 0, 20, 100, 400}[r.Intn(5)]
+	switch r.Intn(5) {
+	case 0:
+		c.CloseAfterUS = 0
+		b = append(b, "close-at-once")
+	case 1:
+		c.CloseAfterUS = 30_000 + r.Intn(30_000)
+		b = append(b, "close-late")
+	default:
+		c.CloseAfterUS = 50 + r.Intn(6000)
+		b = append(b, "close-mid-traffic")
+	}
+	for w := 0; w < nw; w++ {
+		c.Writers = append(c.Writers, genSpecs(r, 3+r.Intn(14)+c.Late, false))
+	}
+
+	return c, b
 }
 
 func coqPk(p pk) string {
@@ -415,8 +657,10 @@ func main() {
 	var fails []cq.ImplFailure
 	pac := &cq.Set{Name: "c17pacing", Import: "IV.Check.C17Check", CaseType: "q_case", Checks: []string{"pacing_mismatches", "pacing_spec_failures"}}
 	lea := &cq.Set{Name: "c17leaky", Import: "IV.Check.C17Check", CaseType: "q_case", Checks: []string{"leaky_mismatches", "leaky_spec_failures"}}
-	env := &cq.Set{Name: "c17env", Import: "IV.Check.C17Check", CaseType: "env_case", Checks: []string{"env_spec_failures"}}
-	sets := []*cq.Set{pac, lea, env}
+	env := &cq.Set{Name: "c17env", Import: "IV.Check.C17bCheck", CaseType: "env_case", Checks: []string{"env_spec_failures", "env_tight_failures"}}
+	pcl := &cq.Set{Name: "c17pclose", Import: "IV.Check.C17bCheck", CaseType: "close_case", Checks: []string{"pclose_mismatches", "pclose_spec_failures"}}
+	lcl := &cq.Set{Name: "c17lclose", Import: "IV.Check.C17bCheck", CaseType: "close_case", Checks: []string{"lclose_mismatches", "lclose_spec_failures"}}
+	sets := []*cq.Set{pac, lea, env, pcl, lcl}
 	if o.Replay != "" {
 		var probe map[string]interface{}
 		switch cq.LoadReplay(o.Replay, &probe) {
@@ -428,6 +672,17 @@ func main() {
 			var c qCase
 			cq.LoadReplay(o.Replay, &c)
 			lea.Cases = append(lea.Cases, runQ(c, &fails).toCase("replay"))
+		case "c17pclose", "c17lclose":
+			var c closeCase
+			set := cq.LoadReplay(o.Replay, &c)
+			// the race has to be hit again: repeat the scenario
+			for k := 0; k < 40; k++ {
+				if set == "c17pclose" {
+					pcl.Cases = append(pcl.Cases, runClose(c, &fails).toCase("replay"))
+				} else {
+					lcl.Cases = append(lcl.Cases, runClose(c, &fails).toCase("replay"))
+				}
+			}
 		default:
 			var c qCase
 			cq.LoadReplay(o.Replay, &c)
@@ -444,6 +699,16 @@ func main() {
 			pac.Cases = append(pac.Cases, runQ(c, &fails).toCase("corpus"))
 		case "c17leaky":
 			lea.Cases = append(lea.Cases, runQ(c, &fails).toCase("corpus"))
+		case "c17pclose", "c17lclose":
+			var cc closeCase
+			set := cq.LoadReplay(f, &cc)
+			for k := 0; k < 10; k++ {
+				if set == "c17pclose" {
+					pcl.Cases = append(pcl.Cases, runClose(cc, &fails).toCase("corpus"))
+				} else {
+					lcl.Cases = append(lcl.Cases, runClose(cc, &fails).toCase("corpus"))
+				}
+			}
 		}
 	}
 	n := o.Scale(400, 8000)
@@ -485,16 +750,78 @@ func main() {
 		}
 	}
 	ne := o.Scale(12, 300)
+	var maxStale, staleOver, setStale, nAllow int64 // clock model of theorem C17b_envelope_oracle_sound_for_exact_limiter
 	for i := 0; i < ne; i++ {
 		c := envCase{Rate: 500_000 + r.Intn(20_000_000), N: 200 + r.Intn(300)}
 		if i%2 == 1 {
 			c.Rates = []int{1_000_000 + r.Intn(30_000_000), 400_000 + r.Intn(3_000_000), 5_000_000}
 		}
-		env.Cases = append(env.Cases, runEnv(c, r).toCase())
+		ec := runEnv(c, r)
+		var m int64
+		for _, e := range ec.Evs {
+			if e[0] == 0 {
+				nAllow++
+				if m-e[1] > maxStale {
+					maxStale = m - e[1]
+				}
+				if m-e[1] > 2_000_000 {
+					staleOver++
+				}
+			} else if e[1] < m {
+				setStale++
+			}
+			if e[1] > m {
+				m = e[1]
+			}
+		}
+		env.Cases = append(env.Cases, ec.toCase())
+	}
+	extra := map[string]interface{}{
+		"env_allow_events":                   nAllow,
+		"env_max_stamp_staleness_ns":         maxStale,
+		"env_allow_stamps_older_than_2ms":    staleOver,
+		"env_setrate_stamps_older_than_seen": setStale,
+	}
+	nc := o.Scale(250, 4000)
+	type cjob struct {
+		c closeCase
+		b []string
+	}
+	cjobs := make([]cjob, 0, 2*nc)
+	for i := 0; i < nc; i++ {
+		for _, k := range []string{"pacing", "leaky"} {
+			c, b := genClose(r, k, i)
+			cjobs = append(cjobs, cjob{c, b})
+		}
+	}
+	cres := make([]closeCase, len(cjobs))
+	for i := range cjobs {
+		wg.Add(1)
+		sem <- struct{}{}
+		go func(i int) {
+			defer wg.Done()
+			var lf []cq.ImplFailure
+			cres[i] = runClose(cjobs[i].c, &lf)
+			mu.Lock()
+			fails = append(fails, lf...)
+			mu.Unlock()
+			<-sem
+		}(i)
+	}
+	wg.Wait()
+	for i, j := range cjobs {
+		if j.c.Kind == "pacing" {
+			pcl.Cases = append(pcl.Cases, cres[i].toCase(j.b...))
+		} else {
+			lcl.Cases = append(lcl.Cases, cres[i].toCase(j.b...))
+		}
 	}
 	cq.Write(o, "pacing/leaky: 1..4 streams x 2..13 packets each (payload 0..1460, CSRC/extension/marker variants), sequential and concurrent writers, "+
 		"mid-stream rate changes, caller scribbles its header and payload right after Write returns, one oversize-head case per 17; delivered sequence compared "+
 		"per writer with the accepted one; non-trivial = at least 2 accepted packets; env: real rate.Limiter calls recorded through the pacerFactory hook, "+
-		"cumulative granted bits checked against burst_max + sum(rate*dt) with 2 ms clock slack",
-		sets, nil, fails)
+		"cumulative granted bits checked against burst_max + sum(rate*dt) with 2 ms clock slack per call (env_spec_failures) and against the tight bound that bills only "+
+		"the actual backward steps of the time stamps plus 5 ms per SetRate (env_tight_failures); "+
+		"close sets: Close called 0..60 ms into the traffic of 1..4 writers (sequential or concurrent), 1..3 writes per writer after Close returned, second Close; "+
+		"per call phase (before/racing/after Close) and result, delivered sequence, count delivered when Close returned vs 8 ms later, compared with the LTS with Close",
+		sets, extra, fails)
 }
